@@ -1,8 +1,481 @@
-//! C12 — stub, to be written.
+//! C12 — one record per source file: `add_results` + `rewrite_paths` + `output_covdir` on inputs
+//! that name the same file through several spellings, against the Lean model (driver `gm_c12`,
+//! ops `addrewrite` / `covdir` / `rewrite`) and the property oracles.
+#[path = "../../c11/src/pathgen.rs"]
+mod pathgen;
 use corrlib::*;
+use grcov::CovResult;
+use pathgen::*;
+use serde_json::{json, Value};
+use std::collections::{BTreeMap, BTreeSet};
+use std::path::{Path, PathBuf};
+use std::sync::Mutex;
 
-pub fn run(_rep: &mut Report) {}
-pub fn replay(_rep: &mut Report, _case: &serde_json::Value) {}
+const FINDING: &str = "C12-respelled-duplicates";
+
+/// another spelling of the relative path `rel` (of a file below `home`)
+fn respell(rng: &mut Rng, t: &Tree, rel: &str, home: &str, pd: Option<&str>, stats: &mut BTreeMap<String, u64>) -> String {
+    let mut count = |k: &str| *stats.entry(format!("spelling.{}", k)).or_insert(0) += 1;
+    let seps: Vec<usize> = rel.bytes().enumerate().filter(|(_, b)| *b == b'/').map(|(i, _)| i).collect();
+    let mut k = rel.to_string();
+    match rng.below(11) {
+        0 | 1 => count("plain"),
+        2 => {
+            count("dot_slash");
+            k = format!("./{}", rel);
+        }
+        3 if !seps.is_empty() => {
+            count("double_slash");
+            k.insert(*rng.pick(&seps), '/');
+        }
+        4 if !seps.is_empty() => {
+            count("dot_segment");
+            k.insert_str(*rng.pick(&seps), "/.");
+        }
+        5 if !seps.is_empty() => {
+            count("backslash");
+            let i = *rng.pick(&seps);
+            k.replace_range(i..i + 1, "\\");
+        }
+        6 => {
+            count("absolute");
+            k = format!("{}/{}", home, rel);
+        }
+        7 => {
+            count("dotdot");
+            k = format!("{}/../{}", rng.pick(DIRS), rel);
+        }
+        8 => {
+            count("source_tail");
+            k = format!("src/{}", rel);
+        }
+        9 if pd.is_some() => {
+            count("prefixed");
+            let p = pd.unwrap();
+            k = if p.ends_with('/') || p.is_empty() { format!("{}{}", p, rel) } else { format!("{}/{}", p, rel) };
+        }
+        _ => count("plain"),
+    }
+    k
+}
+
+struct C12Case {
+    cfg: Cfg,
+    /// batches handed to add_results one after the other
+    batches: Vec<Vec<(String, CovResult)>>,
+}
+
+impl C12Case {
+    fn flat(&self) -> Vec<(String, CovResult)> {
+        self.batches.iter().flatten().cloned().collect()
+    }
+    fn to_json(&self, t: &Tree) -> Value {
+        json!({"op": "addrewrite", "tree": t.to_json(), "cfg": self.cfg.to_json(),
+               "batches": self.batches.iter().map(|b| b.iter().map(|(k, c)| json!([k, show_cov(c)])).collect::<Vec<_>>()).collect::<Vec<_>>()})
+    }
+    fn from_json(v: &Value) -> C12Case {
+        C12Case {
+            cfg: Cfg::from_json(&v["cfg"]),
+            batches: v["batches"]
+                .as_array()
+                .unwrap()
+                .iter()
+                .map(|b| {
+                    b.as_array()
+                        .unwrap()
+                        .iter()
+                        .map(|e| (e[0].as_str().unwrap().to_string(), parse_cov(e[1].as_str().unwrap())))
+                        .collect()
+                })
+                .collect(),
+        }
+    }
+}
+
+fn gen_case(rng: &mut Rng, t: &Tree, stats: &mut BTreeMap<String, u64>) -> C12Case {
+    let mut cfg = gen_cfg(rng, t, false);
+    // the guards of C12_unique_partial are met often
+    match rng.below(6) {
+        0 | 1 => {
+            cfg.sd = Some(t.src.clone());
+            cfg.pd = if rng.chance(1, 2) { cfg.sd.clone() } else { None };
+        }
+        2 => {
+            cfg.sd = None;
+            cfg.pd = None;
+        }
+        _ => {}
+    }
+    let src_files = t.files_under("src");
+    let n_targets = rng.range(1, 3);
+    let mut entries: Vec<(String, CovResult)> = vec![];
+    for _ in 0..n_targets {
+        let (rel, home) = match rng.below(8) {
+            0 => (rng.pick(&t.files_under("other")).clone(), t.other.clone()),
+            1 => {
+                let (ds, f) = (rng.pick(DIRS), rng.pick(FILES));
+                (format!("nx/{}/{}", ds, f), t.src.clone())
+            }
+            _ => (rng.pick(&src_files).clone(), t.src.clone()),
+        };
+        for _ in 0..rng.range(1, 4) {
+            let k = if rng.chance(1, 6) {
+                gen_key(rng, t, cfg.pd.as_deref(), &mut BTreeMap::new())
+            } else {
+                respell(rng, t, &rel, &home, cfg.pd.as_deref(), stats)
+            };
+            let i = entries.len() as u32;
+            entries.push((k, gen_cov(rng, i)));
+        }
+    }
+    rng.shuffle(&mut entries);
+    if rng.chance(1, 12) {
+        cfg.mapping = Some(vec![(entries[0].0.replace('\\', "/"), rng.pick(&src_files).clone())]);
+    }
+    // split into 1-3 batches; the same key string may occur in several batches (add_results merges)
+    let nb = rng.range(1, 3) as usize;
+    let mut batches: Vec<Vec<(String, CovResult)>> = vec![vec![]; nb];
+    for e in entries {
+        let b = rng.below(nb as u64) as usize;
+        if !batches[b].iter().any(|(k, _)| *k == e.0) {
+            batches[b].push(e);
+        }
+    }
+    C12Case { cfg, batches }
+}
+
+/// add_results (each batch) then rewrite_paths, on the real code
+fn run_impl_c12(case: &C12Case) -> Result<Recs, String> {
+    let map: Mutex<grcov::CovResultMap> = Mutex::new(Default::default());
+    let sd = case.cfg.sd.clone();
+    let batches = case.batches.clone();
+    guarded(|| {
+        for b in batches {
+            grcov::verif_add_results(b, &map, sd.as_deref().map(Path::new));
+        }
+    })?;
+    let m = map.into_inner().unwrap();
+    call_rewrite(&case.cfg, m)
+}
+
+fn duplicates(recs: &Recs) -> Vec<(String, bool)> {
+    let mut by_rel: BTreeMap<&str, BTreeSet<&str>> = BTreeMap::new();
+    let mut n: BTreeMap<&str, usize> = BTreeMap::new();
+    for (a, r, _) in recs {
+        by_rel.entry(r).or_default().insert(a);
+        *n.entry(r).or_insert(0) += 1;
+    }
+    n.iter()
+        .filter(|(_, c)| **c > 1)
+        .map(|(r, _)| (r.to_string(), by_rel[r].len() == 1))
+        .collect()
+}
+
+fn is_normal_key(k: &str) -> bool {
+    !k.is_empty() && k != "/" && normal_form(k)
+}
+
+/// which guard of C12_unique_partial the case satisfies, decided without grcov
+fn guard(case: &C12Case, t: &Tree) -> Option<&'static str> {
+    let c = &case.cfg;
+    if c.mapping.is_some() {
+        return None;
+    }
+    let flat = case.flat();
+    if c.sd.is_none() && c.pd.is_none() && flat.iter().all(|(k, _)| is_normal_key(k)) {
+        return Some("normal_keys");
+    }
+    if c.sd.as_deref() == Some(t.src.as_str()) && (c.pd.is_none() || c.pd == c.sd) {
+        let pre = format!("{}/", t.src);
+        let all = flat.iter().all(|(k, _)| {
+            std::fs::canonicalize(Path::new(&t.src).join(k))
+                .map(|p| p.is_file() && p.to_str().unwrap().starts_with(&pre))
+                .unwrap_or(false)
+        });
+        if all {
+            return Some("canonical");
+        }
+    }
+    None
+}
+
+/// covdir: every directory's totals are the sums over its listed children; returns the root's
+/// (linesTotal, sum of linesTotal over the listed files)
+fn covdir_check(v: &Value, bad: &mut Vec<String>, path: &str) -> (u64, u64) {
+    let total = v["linesTotal"].as_u64().unwrap_or(0);
+    match v.get("children") {
+        None => (total, total),
+        Some(ch) => {
+            let mut sum = 0;
+            let mut listed = 0;
+            for (name, c) in ch.as_object().unwrap() {
+                let (t, l) = covdir_check(c, bad, &format!("{}/{}", path, name));
+                sum += t;
+                listed += l;
+            }
+            if sum != total {
+                bad.push(format!("directory {:?}: linesTotal {} but its children add up to {}", path, total, sum));
+            }
+            (total, listed)
+        }
+    }
+}
+
+fn covdir_of(rep: &Report, recs: &Recs, tag: &str) -> Result<Value, String> {
+    let out = rep.workdir.join(format!("covdir_{}.json", tag));
+    let results: Vec<(PathBuf, PathBuf, CovResult)> = recs
+        .iter()
+        .map(|(a, r, c)| (PathBuf::from(a), PathBuf::from(r), c.clone()))
+        .collect();
+    let o = out.clone();
+    guarded(move || grcov::output_covdir(&results, Some(&o), 2))?;
+    let text = std::fs::read_to_string(&out).map_err(|e| e.to_string())?;
+    serde_json::from_str(&text).map_err(|e| e.to_string())
+}
+
+/// independent aggregation: the line counts a file's single record must carry
+fn expected_lines(entries: &[&CovResult]) -> BTreeMap<u32, u64> {
+    let mut m: BTreeMap<u32, u128> = BTreeMap::new();
+    for c in entries {
+        for (l, n) in &c.lines {
+            *m.entry(*l).or_insert(0) += *n as u128;
+        }
+    }
+    m.into_iter().map(|(l, n)| (l, n.min(u64::MAX as u128) as u64)).collect()
+}
+
+/// all oracles of one case on the implementation's own output
+fn oracles(rep: &mut Report, t: &Tree, case: &C12Case, r: &Result<Recs, String>, tag: &str) -> Vec<(String, Option<&'static str>)> {
+    let mut fails: Vec<(String, Option<&'static str>)> = vec![];
+    let recs = match r {
+        Ok(x) => x,
+        Err(_) => return fails,
+    };
+    let dups = duplicates(recs);
+    let g = guard(case, t);
+    if let Some(g) = g {
+        rep.count(&format!("guard.{}", g));
+    } else {
+        rep.count("guard.none");
+    }
+    for (rel, same_abs) in &dups {
+        rep.count("out.duplicate_path");
+        if g.is_some() {
+            fails.push((format!("C12_unique_partial fails: {:?} reported more than once although the guard holds", rel), None));
+        } else if *same_abs {
+            fails.push((format!("{:?} is reported more than once (same absolute path, different raw keys)", rel), Some(FINDING)));
+        } else {
+            fails.push((format!("{:?} is reported more than once with different absolute paths", rel), None));
+        }
+    }
+    // aggregation under the canonical guard: one record per file with the clamped sums
+    if g == Some("canonical") {
+        let flat = case.flat();
+        let mut by_file: BTreeMap<String, Vec<&CovResult>> = BTreeMap::new();
+        for (k, c) in &flat {
+            let p = std::fs::canonicalize(Path::new(&t.src).join(k)).unwrap();
+            by_file.entry(p.to_str().unwrap().to_string()).or_default().push(c);
+        }
+        if by_file.len() != recs.len() {
+            fails.push((format!("{} files named by the inputs, {} records reported", by_file.len(), recs.len()), None));
+        }
+        for (abs, rel, c) in recs {
+            match by_file.get(abs) {
+                Some(es) => {
+                    if expected_lines(es) != c.lines {
+                        fails.push((format!("{:?}: line counts are not the clamped sums of the inputs naming it", rel), None));
+                    }
+                    if format!("{}/{}", t.src, rel) != *abs {
+                        fails.push((format!("{:?} is not relative to the source dir", rel), None));
+                    }
+                }
+                None => fails.push((format!("record {:?} names no input file", abs), None)),
+            }
+        }
+    }
+    // totals of the covdir report
+    if recs.iter().all(|(_, r, _)| !r.is_empty() && r != "/") {
+        match covdir_of(rep, recs, tag) {
+            Ok(v) => {
+                let mut bad = vec![];
+                let (total, listed) = covdir_check(&v, &mut bad, "");
+                let want: u64 = recs.iter().map(|(_, _, c)| c.lines.len() as u64).sum();
+                if total != want {
+                    fails.push((format!("covdir root linesTotal {} is not the sum over records {}", total, want), None));
+                }
+                if dups.is_empty() && listed != total {
+                    fails.push(("covdir: no duplicate path, yet the listed files do not add up to the root total".into(), None));
+                }
+                for b in bad {
+                    rep.count("out.covdir_total_mismatch");
+                    fails.push((format!("covdir counts a file more than once: {}", b),
+                        if !dups.is_empty() && dups.iter().all(|d| d.1) && g.is_none() { Some(FINDING) } else { None }));
+                }
+            }
+            Err(p) => fails.push((format!("output_covdir failed: {}", p), None)),
+        }
+    }
+    fails
+}
+
+fn report_case(rep: &mut Report, t: &Tree, case: &C12Case, r: &Result<Recs, String>, model: &str, tag: &str) {
+    let out = show_recs(r);
+    let fails = oracles(rep, t, case, r, tag);
+    let unnamed: Vec<&(String, Option<&'static str>)> = fails.iter().filter(|f| f.1.is_none()).collect();
+    let mut cj = case.to_json(t);
+    if let Some(f) = unnamed.first() {
+        rep.fail("oracle", None, f.0.clone(), cj);
+        return;
+    }
+    if out != model {
+        rep.disagreements_checked += 1;
+        cj["impl"] = json!(out);
+        cj["model"] = json!(model);
+        rep.fail("disagreement", None,
+            "add_results + rewrite_paths differs from Rewrite.addThenRewrite (theorems C12_* no longer transfer)".into(), cj);
+        return;
+    }
+    if let Some(f) = fails.first() {
+        rep.fail("oracle", f.1, f.0.clone(), cj);
+    }
+}
+
+fn stream(rep: &mut Report, rng: &mut Rng) {
+    let base = rep.workdir.join("fs");
+    let n_trees = rep.budget(5, 4);
+    let per_tree = rep.budget(400, 5) * 5 / n_trees;
+    for ti in 0..n_trees {
+        let t = build_tree(rng, &base, ti);
+        std::env::set_current_dir(&t.cw).unwrap();
+        let mut stats = BTreeMap::new();
+        let mut reqs = vec![];
+        let mut cases = vec![];
+        let mut results = vec![];
+        for _ in 0..per_tree {
+            let case = gen_case(rng, &t, &mut stats);
+            let r = run_impl_c12(&case);
+            let req = request("addrewrite", &t, &case.cfg, &case.flat());
+            let respelled = {
+                let flat = case.flat();
+                let mut norm = BTreeSet::new();
+                flat.iter().any(|(k, _)| !norm.insert(spec_normalize(&k.replace('\\', "/"))))
+            };
+            rep.case(&req, respelled);
+            rep.count(&format!("cfg.source_dir={}", if case.cfg.sd.is_some() { "some" } else { "none" }));
+            rep.count(&format!("cfg.prefix_dir={}", match &case.cfg.pd { None => "none", p if *p == case.cfg.sd => "=source", _ => "other" }));
+            if case.cfg.mapping.is_some() { rep.count("cfg.mapping"); }
+            reqs.push(req);
+            cases.push(case);
+            results.push(r);
+        }
+        for (k, v) in stats {
+            rep.count_n(&k, v);
+        }
+        let model = run_model_named("gm_c12", &reqs, &rep.workdir, &format!("addrewrite{}", ti));
+        for i in 0..reqs.len() {
+            if i == 0 && ti < 2 {
+                rep.sample(json!({"case": cases[i].to_json(&t), "impl": show_recs(&results[i]), "model": model[i]}));
+            }
+            report_case(rep, &t, &cases[i], &results[i], &model[i], "gen");
+        }
+        // global totals against the model (`covdir`: dirTotal and listedTotal of the whole report)
+        let mut creqs = vec![];
+        let mut couts = vec![];
+        for i in 0..reqs.len() {
+            if let Ok(recs) = &results[i] {
+                if i % 4 == 0 && !recs.is_empty() && recs.iter().all(|(_, r, _)| !r.is_empty() && r != "/") {
+                    if let Ok(v) = covdir_of(rep, recs, "tie") {
+                        let mut bad = vec![];
+                        let (total, listed) = covdir_check(&v, &mut bad, "");
+                        creqs.push(request("covdir", &t, &cases[i].cfg, &cases[i].flat()));
+                        couts.push((format!("{} {}", total, listed), i));
+                    }
+                }
+            }
+        }
+        let cmodel = run_model_named("gm_c12", &creqs, &rep.workdir, &format!("covdir{}", ti));
+        for j in 0..creqs.len() {
+            rep.case(&creqs[j], true);
+            rep.count("covdir.totals_compared");
+            if couts[j].0 != cmodel[j] {
+                rep.disagreements_checked += 1;
+                let mut cj = cases[couts[j].1].to_json(&t);
+                cj["impl_totals"] = json!(couts[j].0);
+                cj["model_totals"] = json!(cmodel[j]);
+                rep.fail("disagreement", None, "covdir root total / listed total differ from Rewrite.dirTotal / listedTotal".into(), cj);
+            }
+        }
+    }
+    std::env::set_current_dir("/verif").unwrap();
+}
+
+/// DESIGN §7 item 14 / Props.C12.C12_duplicate_witness on the real code
+fn witness(rep: &mut Report) {
+    let base = rep.workdir.join("fs");
+    let t = materialise(&base, 901, &["src".into(), "other".into(), "cw".into()], &[]);
+    std::env::set_current_dir(&t.cw).unwrap();
+    let keys = ["foo/bar.c", "foo/./bar.c", "foo//bar.c", "foo\\bar.c", "x/../foo/bar.c"];
+    let batch: Vec<(String, CovResult)> = keys
+        .iter()
+        .enumerate()
+        .map(|(i, k)| {
+            let mut c = CovResult::default();
+            c.lines.insert(1, i as u64 + 1);
+            (k.to_string(), c)
+        })
+        .collect();
+    let case = C12Case {
+        cfg: Cfg { sd: None, pd: None, mapping: None, ignore: vec![], keep: vec![], ine: false, filter: None },
+        batches: vec![batch],
+    };
+    let r = run_impl_c12(&case);
+    let req = request("addrewrite", &t, &case.cfg, &case.flat());
+    let model = run_model_named("gm_c12", &[req.clone()], &rep.workdir, "witness");
+    rep.case(&req, true);
+    rep.count("witness.five_spellings");
+    // the Lean theorem's right-hand side, literally
+    let want = format!(
+        "ok {}",
+        (1..=5)
+            .map(|i| format!("A{}:R{}=L1:{};B;F", hex(b"foo/bar.c"), hex(b"foo/bar.c"), i))
+            .collect::<Vec<_>>()
+            .join(" ")
+    );
+    if model[0] != want {
+        rep.fail("disagreement", None, "the driver does not reproduce C12_duplicate_witness".into(), case.to_json(&t));
+    }
+    rep.sample(json!({"witness": keys, "impl": show_recs(&r), "model": model[0]}));
+    report_case(rep, &t, &case, &r, &model[0], "witness");
+    std::env::set_current_dir("/verif").unwrap();
+}
+
+pub fn run(rep: &mut Report) {
+    rep.rule = "trees as in C11; 1-3 target files (mostly under the source dir, some outside or missing), each \
+        named by 1-4 spellings (plain, ./, //, /./, backslash, absolute, name/../, source-dir tail, prefixed, or a \
+        free C11 key), shuffled into 1-3 add_results batches; configurations over source dir / prefix dir / mapping \
+        with the two guards of C12_unique_partial met in about half of the cases; the report is also written with \
+        output_covdir; non-trivial = two inputs have the same lexical normal form (same file, different spelling)"
+        .to_string();
+    let mut rng = Rng::new(rep.seed ^ 0xC12);
+    witness(rep);
+    stream(rep, &mut rng);
+    rep.notes.push("in-process only (add_results, rewrite_paths, output_covdir); the CLI is not driven here. Java/Kotlin keys, markers and symlinks are outside the generated domain; keys that denote a directory are not written with output_covdir (it panics on an empty path: not this property)".into());
+}
+
+pub fn replay(rep: &mut Report, case: &Value) {
+    if case["op"].as_str() == Some("addrewrite") {
+        let base = rep.workdir.join("fs");
+        let t = tree_from_json(&base, &case["tree"]);
+        std::env::set_current_dir(&t.cw).unwrap();
+        let c = C12Case::from_json(case);
+        let r = run_impl_c12(&c);
+        let req = request("addrewrite", &t, &c.cfg, &c.flat());
+        let model = run_model_named("gm_c12", &[req.clone()], &rep.workdir, "replay");
+        rep.case(&req, true);
+        report_case(rep, &t, &c, &r, &model[0], "replay");
+        std::env::set_current_dir("/verif").unwrap();
+    }
+}
 
 fn main() {
     corrlib::run_main("C12", run, replay);
